@@ -142,6 +142,28 @@ def step (line : String) : String :=
     | "pts.set" => do
       let p ← pPoints; let ix ← pIndex; let q ← pPoints
       return showE showPoints (p.setitem ix q)
+    | "obj.run" => do
+      -- one object: assignments, type conversions, requires_grad changes; reply = final state
+      let t ← pTPoints
+      let ms ← many (do
+        let k ← next
+        match k with
+        | "S" => do let ix ← pIndex; let q ← pTPoints; pure (Mut.set ix q)
+        | "T" => do pure (Mut.to (← pDType))
+        | "G" => do pure (Mut.setGrad (← bool))
+        | _ => throw s!"mut:{k}")
+      -- conversions that round are outside the model
+      let rec ok : TPoints Rat → List (Mut Rat) → Bool
+        | _, [] => true
+        | cur, .to d :: r => cur.pts.data.all (·.all (fits d)) && ok ⟨d, cur.pts⟩ r
+        | cur, .set ix q :: r =>
+          q.pts.data.all (·.all (fits cur.dtype)) &&
+            (match cur.setitem ix q with | .ok n => ok n r | .error _ => true)
+        | cur, _ :: r => ok cur r
+      match (Obj.run ⟨t, false⟩ ms) with
+      | .ok o => if ok t ms then return s!"{showT (.ok o.t)} grad={o.grad}" else return "unmodelled"
+      | .error .unmodelled => return "unmodelled"
+      | .error e => return s!"err:{e.name}"
     | "pts.live" => do
       -- one object, a sequence of assignments applied one after the other (value semantics)
       let p ← pPoints
